@@ -419,6 +419,7 @@ var localMismatchRe = regexp.MustCompile(`C18LOCALMISMATCH (\S+) (.*)`)
 type localOrigin struct {
 	fields []lfield
 	omit   map[string]bool
+	twin   bool
 }
 
 type lfield struct{ name, typ, tag, val string }
@@ -438,6 +439,22 @@ var lfieldPool = []lfield{
 	{"_rev", "int64", "", `99`},
 	{"note", "string", "", `"n"`},
 	{"_", "int32", "", ""}, // a blank field: mirrored, never copied (it cannot be named)
+	// twins: names that differ in the case of the first letter only (an exported field and its unexported cache) - an
+	// omit tag names exactly one of them (seeded change C18-m: omit names normalised to the exported spelling)
+	{"count", "int", "", `3`},
+	{"secret", "[]byte", "", `[]byte("x")`},
+	{"Note", "string", `json:"note"`, `"N"`},
+}
+
+var twinPairs = [][2]string{{"Count", "count"}, {"Secret", "secret"}, {"Note", "note"}}
+
+func poolField(name string) lfield {
+	for _, f := range lfieldPool {
+		if f.name == name {
+			return f
+		}
+	}
+	panic("no such pool field: " + name)
 }
 
 func genLocalOrigin(r *rand.Rand) *localOrigin {
@@ -458,6 +475,23 @@ func genLocalOrigin(r *rand.Rand) *localOrigin {
 		if r.Intn(4) == 0 && f.name != "_" {
 			lo.omit[f.name] = true
 		}
+	}
+	if r.Intn(2) == 0 {
+		// both twins present, exactly one of them omitted
+		tw := twinPairs[r.Intn(len(twinPairs))]
+		for _, n := range tw {
+			has := false
+			for _, f := range lo.fields {
+				has = has || f.name == n
+			}
+			if !has {
+				lo.fields = append(lo.fields, poolField(n))
+			}
+		}
+		k := r.Intn(2)
+		lo.omit[tw[k]] = true
+		delete(lo.omit, tw[1-k])
+		lo.twin = true
 	}
 	if len(lo.omit) == len(lo.fields) {
 		delete(lo.omit, lo.fields[0].name)
@@ -661,6 +695,9 @@ func (p *prop) runBatch(c core.Case, w *core.Worker, res *core.Result, r *rand.R
 	m.MustWrite("origin/origin.go", osrc.String())
 	lo := genLocalOrigin(r)
 	m.MustWrite("localpart/types.go", lo.source())
+	if lo.twin {
+		res.Inc("local_origins_with_twin_fields_one_of_them_omitted")
+	}
 	entries = append(entries, "./localpart")
 	run := specgen.RunInProcess(m.Root, specgen.Args{Entrypoint: entries, OutputFileBaseName: "zz_generated"}, []specgen.GenSpec{{Name: "partialstruct", Real: true}})
 	res.Inc("gengo_runs")
